@@ -1,0 +1,102 @@
+//go:build verif
+
+// Contracts for the verification machinery in /verif (comment-only; never compiled into a binary).
+// Property C13: admitted pods obey the QoS/priority protocol and keep their declared amounts.
+
+package extension
+
+//@ spec func rangesOK() bool = PriorityProdValueMin <= PriorityProdValueMax && PriorityMidValueMin <= PriorityMidValueMax && PriorityBatchValueMin <= PriorityBatchValueMax && PriorityFreeValueMin <= PriorityFreeValueMax && (PriorityProdValueMax < PriorityMidValueMin || PriorityMidValueMax < PriorityProdValueMin) && (PriorityProdValueMax < PriorityBatchValueMin || PriorityBatchValueMax < PriorityProdValueMin) && (PriorityProdValueMax < PriorityFreeValueMin || PriorityFreeValueMax < PriorityProdValueMin) && (PriorityMidValueMax < PriorityBatchValueMin || PriorityBatchValueMax < PriorityMidValueMin) && (PriorityMidValueMax < PriorityFreeValueMin || PriorityFreeValueMax < PriorityMidValueMin) && (PriorityBatchValueMax < PriorityFreeValueMin || PriorityFreeValueMax < PriorityBatchValueMin)
+
+//@ spec func classOfValue(p int32) PriorityClass = (PriorityProdValueMin <= p && p <= PriorityProdValueMax) ? PriorityProd : ((PriorityMidValueMin <= p && p <= PriorityMidValueMax) ? PriorityMid : ((PriorityBatchValueMin <= p && p <= PriorityBatchValueMax) ? PriorityBatch : ((PriorityFreeValueMin <= p && p <= PriorityFreeValueMax) ? PriorityFree : DefaultPriorityClass)))
+
+//@ func getPriorityClassByPriority [C13]
+//@   requires rangesOK()
+//@   requires DefaultPriorityClass == PriorityNone
+//@   ensures #nil: priority == nil ==> result == PriorityNone
+//@   ensures #prod: priority != nil ==> (result == PriorityProd <==> (PriorityProdValueMin <= deref(priority) && deref(priority) <= PriorityProdValueMax))
+//@   ensures #mid: priority != nil ==> (result == PriorityMid <==> (PriorityMidValueMin <= deref(priority) && deref(priority) <= PriorityMidValueMax))
+//@   ensures #batch: priority != nil ==> (result == PriorityBatch <==> (PriorityBatchValueMin <= deref(priority) && deref(priority) <= PriorityBatchValueMax))
+//@   ensures #free: priority != nil ==> (result == PriorityFree <==> (PriorityFreeValueMin <= deref(priority) && deref(priority) <= PriorityFreeValueMax))
+//@   ensures #none: priority != nil ==> (result == PriorityNone <==> !(PriorityProdValueMin <= deref(priority) && deref(priority) <= PriorityProdValueMax) && !(PriorityMidValueMin <= deref(priority) && deref(priority) <= PriorityMidValueMax) && !(PriorityBatchValueMin <= deref(priority) && deref(priority) <= PriorityBatchValueMax) && !(PriorityFreeValueMin <= deref(priority) && deref(priority) <= PriorityFreeValueMax))
+//@   modifies nothing
+
+//@ spec func prioByName(s string) PriorityClass = (PriorityClass(s) == PriorityProd || PriorityClass(s) == PriorityMid || PriorityClass(s) == PriorityBatch || PriorityClass(s) == PriorityFree) ? PriorityClass(s) : PriorityNone
+
+//@ spec func qosByName(s string) QoSClass = (QoSClass(s) == QoSLSE || QoSClass(s) == QoSLSR || QoSClass(s) == QoSLS || QoSClass(s) == QoSBE || QoSClass(s) == QoSSystem) ? QoSClass(s) : QoSNone
+
+//@ func GetPodPriorityClassByName [C13]
+//@   ensures #fn: result == prioByName(priorityClass)
+//@   modifies nothing
+
+//@ func GetPodQoSClassByName [C13]
+//@   ensures #fn: result == qosByName(qos)
+//@   modifies nothing
+
+//@ spec func podPrio(pod *corev1.Pod) PriorityClass = pod == nil ? PriorityNone : (has(pod.ObjectMeta.Labels, LabelPodPriorityClass) ? prioByName(pod.ObjectMeta.Labels[LabelPodPriorityClass]) : (pod.Spec.Priority == nil ? PriorityNone : classOfValue(deref(pod.Spec.Priority))))
+
+//@ spec func podQoS(pod *corev1.Pod) QoSClass = (pod == nil || pod.ObjectMeta.Labels == nil || !has(pod.ObjectMeta.Labels, LabelPodQoS)) ? QoSNone : qosByName(pod.ObjectMeta.Labels[LabelPodQoS])
+
+//@ func GetPodPriorityClassRaw [C13]
+//@   requires rangesOK()
+//@   requires DefaultPriorityClass == PriorityNone
+//@   ensures #fn: result == podPrio(pod)
+//@   modifies nothing
+
+//@ func GetQoSClassByAttrs [C13]
+//@   ensures #fn: result == (has(labels, LabelPodQoS) ? qosByName(labels[LabelPodQoS]) : QoSNone)
+//@   modifies nothing
+
+//@ func GetPodQoSClassRaw [C13]
+//@   ensures #fn: result == podQoS(pod)
+//@   modifies nothing
+
+// The kubernetes QoS class of a pod (status field, else computed by kubectl's qos.GetPodQOS from the container
+// resources) is an uninterpreted observer of the pod here.
+//@ spec func kubeQoS(pod *corev1.Pod) corev1.PodQOSClass
+
+//@ func GetKubeQosClass [C13]
+//@   ensures result == kubeQoS(pod)
+//@   modifies nothing
+//@   option trusted
+
+//@ spec func qosOfKube(k corev1.PodQOSClass) QoSClass = k == corev1.PodQOSGuaranteed ? QoSClassForGuaranteed : (k == corev1.PodQOSBurstable ? QoSLS : (k == corev1.PodQOSBestEffort ? QoSBE : QoSNone))
+
+//@ spec func prioOfQoS(q QoSClass) PriorityClass = (q == QoSSystem || q == QoSLSE || q == QoSLSR || q == QoSLS) ? PriorityProd : (q == QoSBE ? PriorityBatch : DefaultPriorityClass)
+
+//@ spec func podQoSDefault(pod *corev1.Pod) QoSClass = podQoS(pod) != QoSNone ? podQoS(pod) : qosOfKube(kubeQoS(pod))
+
+//@ spec func podPrioDefault(pod *corev1.Pod) PriorityClass = podPrio(pod) != PriorityNone ? podPrio(pod) : prioOfQoS(podQoSDefault(pod))
+
+//@ func GetPodQoSClassWithKubeQoS [C13]
+//@   ensures #fn: result == qosOfKube(kubeQOS)
+//@   modifies nothing
+
+//@ func GetPodQoSClassWithDefault [C13]
+//@   ensures #fn: result == podQoSDefault(pod)
+//@   modifies nothing
+
+//@ func GetPodPriorityClassWithQoS [C13]
+//@   ensures #fn: result == prioOfQoS(qos)
+//@   modifies nothing
+
+//@ func GetPodPriorityClassWithDefault [C13]
+//@   requires rangesOK()
+//@   requires DefaultPriorityClass == PriorityNone
+//@   ensures #fn: result == podPrioDefault(pod)
+//@   ensures #explicit: podPrio(pod) != PriorityNone ==> result == podPrio(pod)
+//@   modifies nothing
+
+// JSON codec of the extended-resource summary annotation: environment (encoding/json), assumed.
+// specEnc(spec) stands for the JSON text of the object spec points to at the time of the call.
+//@ spec func specEnc(spec *ExtendedResourceSpec) string
+
+//@ func GetExtendedResourceSpec [C13]
+//@   ensures result1 == nil ==> result0 != nil && fresh(result0)
+//@   modifies nothing
+//@   option trusted
+
+//@ func SetExtendedResourceSpec [C13]
+//@   ensures pod != nil && result == nil ==> pod.ObjectMeta.Annotations != nil && has(pod.ObjectMeta.Annotations, AnnotationExtendedResourceSpec) && pod.ObjectMeta.Annotations[AnnotationExtendedResourceSpec] == specEnc(spec)
+//@   ensures forall k string :: k != AnnotationExtendedResourceSpec ==> has(pod.ObjectMeta.Annotations, k) == old(has(pod.ObjectMeta.Annotations, k)) && pod.ObjectMeta.Annotations[k] == old(pod.ObjectMeta.Annotations[k])
+//@   modifies pod.ObjectMeta.Annotations, contents(pod.ObjectMeta.Annotations)
+//@   option trusted
